@@ -4,13 +4,14 @@ use crate::support::*;
 use educe::Educe;
 use core::cmp::Ordering;
 #[derive(Educe)]
-#[educe(Eq, PartialEq, PartialOrd)]
-pub enum T { A }
+#[repr(i32)]
+#[educe(PartialEq, PartialOrd, Eq)]
+pub enum T { Unit(&'static u8, #[educe(PartialOrd(rank = -2))] ::core::num::NonZeroU8, ()) = 1 }
 
-pub fn values() -> Vec<T> { vec![T::A] }
-pub fn show(x: &T) -> String { #[allow(unused_variables)] match x { T::A => format!("A()") } }
-pub fn o_disc(x: &T) -> i128 { match x { T::A => 0 } }
-pub fn o_pcmp(a: &T, b: &T) -> Option<Ordering> { match (a, b) { (T::A, T::A) => {  Some(Ordering::Equal) } } }
+pub fn values() -> Vec<T> { vec![T::Unit(&3u8, ::core::num::NonZeroU8::new(1).unwrap(), ()), T::Unit(&3u8, ::core::num::NonZeroU8::new(200).unwrap(), ()), T::Unit(&200u8, ::core::num::NonZeroU8::new(1).unwrap(), ()), T::Unit(&200u8, ::core::num::NonZeroU8::new(200).unwrap(), ())] }
+pub fn show(x: &T) -> String { #[allow(unused_variables)] match x { T::Unit(p0, p1, p2) => format!("Unit({},{},{})", sv(p0), sv(p1), sv(p2)) } }
+pub fn o_disc(x: &T) -> i128 { match x { T::Unit(_, _, _) => 1 } }
+pub fn o_pcmp(a: &T, b: &T) -> Option<Ordering> { match (a, b) { (T::Unit(a0, a1, a2), T::Unit(b0, b1, b2)) => { match ::core::cmp::PartialOrd::partial_cmp(a0, b0) { Some(Ordering::Equal) => (), x => return x } match ::core::cmp::PartialOrd::partial_cmp(a2, b2) { Some(Ordering::Equal) => (), x => return x } match ::core::cmp::PartialOrd::partial_cmp(a1, b1) { Some(Ordering::Equal) => (), x => return x } Some(Ordering::Equal) } } }
 #[repr(C)] pub struct Wrap { pub pre: u8, pub x: T, pub post: [u8; 9] }
 pub fn wrap(i: usize, n: u8) -> Wrap { Wrap { pre: n, x: values().swap_remove(i), post: [n; 9] } }
 pub fn run(out: &mut Out) { let vs = values(); for (i, a) in vs.iter().enumerate() { for (j, b) in vs.iter().enumerate() { let e = o_pcmp(a, b); let g = ::core::cmp::PartialOrd::partial_cmp(a, b); out.check(g == e, "ordlayout_8", "partial_cmp", || format!("partial_cmp({}, {}) = {:?} expected {:?}", show(a), show(b), g, e)); for n in [0u8, 1, 0x7f, 0x80, 0xff] { let wa = wrap(i, n); let wb = wrap(j, !n); let g = ::core::cmp::PartialOrd::partial_cmp(&wa.x, &wb.x); let e = o_pcmp(a, b); out.check(g == e, "ordlayout_8", "cmp_neighbours", || format!("cmp({}, {}) with neighbour bytes {} = {:?} expected {:?}", show(a), show(b), n, g, e)); } } } }
